@@ -2891,7 +2891,11 @@ impl TryInto<Vec<Value>> for DataType {
                     })
                     .collect::<Result<Vec<_>>>()?;
 
-                let first = vec_of_vec[0].clone();
+                // The empty struct has one value
+                let first = match vec_of_vec.first() {
+                    Some(first) => first.clone(),
+                    None => return Ok(vec![Value::structured(Vec::<(String, Value)>::new())]),
+                };
                 Ok(vec_of_vec
                     .into_iter()
                     .skip(1)
